@@ -100,6 +100,9 @@ type bprover struct {
 	slicePhis map[string]*ssa.Phi // len(φ) atoms of byte-sequence phis
 	assume    []string
 	depth     int
+	// succFacts: what holds when the error a helper call handed back is nil (keyed by that error value):
+	// the helper's own guards on the way to its successful returns, written over the call's arguments
+	succFacts map[ssa.Value][]fact
 }
 
 func newBProver(w *World, fn *ssa.Function) *bprover {
@@ -565,6 +568,17 @@ func (p *bprover) boundedByLength(e lin, facts []fact) bool {
 
 func (p *bprover) condFacts(cond ssa.Value, truth bool, at *ssa.BasicBlock) []fact {
 	b, ok := cond.(*ssa.BinOp)
+	if ok && len(p.succFacts) > 0 && (b.Op == token.EQL || b.Op == token.NEQ) {
+		x, y := b.X, b.Y
+		if isNilConst(x) {
+			x, y = y, x
+		}
+		if isNilConst(y) && (b.Op == token.EQL) == truth {
+			if fs, has := p.succFacts[x]; has {
+				return fs
+			}
+		}
+	}
 	if !ok {
 		if u, ok := cond.(*ssa.UnOp); ok && u.Op == token.NOT {
 			return p.condFacts(u.X, !truth, at)
